@@ -1,6 +1,8 @@
 package gen
 
 import (
+	"image"
+
 	"pgregory.net/rapid"
 )
 
@@ -20,6 +22,23 @@ type AnimPic struct {
 	Pix   []byte // NRGBA
 	DurMS int
 	Edit  string
+	Store string // how the picture is handed to AddFrame: "" / tight | sub | stride | generic (same colours)
+	OX, OY int   // origin of the sub-image view
+}
+
+// Image returns the picture in the storage layout drawn for it. Every layout yields exactly the
+// NRGBA colours in Pix.
+func (p *AnimPic) Image() image.Image {
+	im := &Img{W: p.W, H: p.H, Kind: "nrgba", Place: "tight", Pix: p.Pix, Garbage: uint64(p.W*131 + p.H*7 + p.OX)}
+	switch p.Store {
+	case "sub":
+		im.Place, im.OX, im.OY, im.PadR, im.PadB = "sub", p.OX, p.OY, 1+p.OX%3, 1+p.OY%2
+	case "stride":
+		im.Place, im.PadR = "stride", 1+p.OX
+	case "generic":
+		im.Kind = "generic"
+	}
+	return im.Build()
 }
 
 func (s *AnimSeq) Summary() map[string]any {
@@ -188,6 +207,10 @@ func DrawAnimSeq(t *rapid.T, maxCanvas, maxFrames, minDur int, alphas []string) 
 			if pic.DurMS < minDur {
 				pic.DurMS = minDur
 			}
+		}
+		pic.Store = rapid.SampledFrom([]string{"tight", "tight", "tight", "sub", "stride", "generic"}).Draw(t, "store")
+		if pic.Store == "sub" || pic.Store == "stride" {
+			pic.OX, pic.OY = rapid.IntRange(0, 5).Draw(t, "storeOX"), rapid.IntRange(0, 5).Draw(t, "storeOY")
 		}
 		s.Frames = append(s.Frames, pic)
 	}
